@@ -47,11 +47,14 @@ S0 == [ eph |-> <<>>,            \* ephemeral configuration as committed (Junos!
         expect |-> NoDen, repeat |-> FALSE, instance |-> "",
         opened |-> FALSE, openAcked |-> FALSE, failed |-> FALSE, loadsAcked |-> TRUE,
         commitSeen |-> FALSE, commitAcked |-> FALSE, closeDbAcked |-> FALSE, closeSessAcked |-> FALSE,
-        faulted |-> FALSE, updated |-> {}, deleted |-> {}, nloads |-> 0, irrmode |-> "ok", prevOk |-> FALSE ]
+        faulted |-> FALSE, updated |-> {}, deleted |-> {}, nloads |-> 0, irrmode |-> "ok", prevOk |-> FALSE,
+        twin |-> FALSE, style |-> "", twinOk |-> FALSE, twinEnd |-> <<>> ]   \* C13: the same run, replies serialised differently
 
 Pol(exp, n) == exp.policies[n]
 Known(exp, n) == Has(exp, "policies") /\ n \in DOMAIN exp.policies
 Acked(e) == e.fault \in {"none", "close-after"}      \* the reply that was sent is a positive one
+Mut(e) == Has(e, "mutated") /\ e.mutated            \* the router executed the request, its reply was damaged (C14)
+Executed(e) == Acked(e) \/ Mut(e)
 
 ---------------------------------------------------------------------------
 (* events of one session *)
@@ -102,8 +105,8 @@ ReqViol(st, e, staged1) ==
 
 ReqStep(st, e) ==
   LET k == e.kind
-      staged1 == IF k = "load" /\ Acked(e) THEN Load(st.staged, e.update)
-                 ELSE IF k = "open" /\ Acked(e) THEN st.eph ELSE st.staged
+      staged1 == IF k = "load" /\ Executed(e) THEN Load(st.staged, e.update)
+                 ELSE IF k = "open" /\ Executed(e) THEN st.eph ELSE st.staged
       names == IF k = "load" THEN {e.update.policies[i].policy : i \in {i \in 1..Len(e.update.policies) : ~e.update.policies[i].delete}} ELSE {}
       dels  == IF k = "load" THEN {e.update.policies[i].policy : i \in {i \in 1..Len(e.update.policies) : e.update.policies[i].delete}} ELSE {}
   IN [st EXCEPT
@@ -117,7 +120,7 @@ ReqStep(st, e) ==
         !.faulted = @ \/ (e.fault # "none" /\ ~(k = "close-session" /\ e.fault = "close-after")),
         !.commitSeen = @ \/ k = "commit",
         !.commitAcked = @ \/ (k = "commit" /\ Acked(e)),
-        !.eph = IF k = "commit" /\ e.fault = "none" THEN staged1 ELSE @,
+        !.eph = IF k = "commit" /\ (e.fault = "none" \/ Mut(e)) THEN staged1 ELSE @,
         !.closeDbAcked = @ \/ (k = "close-db" /\ Acked(e) /\ e.fault = "none"),
         !.closeSessAcked = @ \/ (k = "close-session" /\ Acked(e)),
         !.updated = @ \cup names, !.deleted = @ \cup dels,
@@ -129,7 +132,9 @@ SelSet(exp) == IF Has(exp, "policies") THEN {n \in DOMAIN exp.policies : exp.pol
 
 ExitViol(st, e) ==
   LET ok == e.code = 0 IN
-  (IF e.timed_out THEN {V("C07", "AgentHung", "one-shot run did not finish within 15 s", e)} ELSE {})
+  (IF e.timed_out THEN {V(IF st.expect.prop = "C14" THEN "C14" ELSE "C07", "AgentHung", "one-shot run did not finish within 15 s", e)} ELSE {})
+  \cup (IF st.expect.prop = "C14" /\ Has(e, "panic_at") /\ e.panic_at # ""
+        THEN {V("C14", "AgentPanicked", st.expect.garble, e)} ELSE {})
   \cup (IF ok /\ ~st.commitAcked THEN {V("C04", "SuccessWithoutAcknowledgedCommit", "", e)} ELSE {})
   \cup (IF ok /\ ~(st.closeDbAcked /\ st.closeSessAcked) THEN {V("C04", "SuccessWithoutAcknowledgedClose", "", e)} ELSE {})
   \cup (IF ok /\ st.faulted THEN {V("C04", "FailedStepButRunReportedSuccess", "", e)} ELSE {})
@@ -175,17 +180,36 @@ EndViol(st, e) ==
         THEN {V("C01", "NotIdempotent", "", e)} ELSE {})
   \cup (IF st.repeat /\ names # Names(st.prevEnd) THEN {V("C01", "NotIdempotent", "set of installed policies changed", e)} ELSE {})
 
+(* C13: a twin run started from the same router state with the same inputs; only the serialisation
+   of the router's replies differed.  Outcome and resulting configuration must be the same. *)
+SemEq(a, b, d) ==
+  /\ Names(a) = Names(b)
+  /\ \A n \in Names(a) :
+        /\ AcceptAtoms(Get(a, n), "inet", d) = AcceptAtoms(Get(b, n), "inet", d)
+        /\ AcceptAtoms(Get(a, n), "inet6", d) = AcceptAtoms(Get(b, n), "inet6", d)
+        /\ FailOpen(Get(a, n)) = FailOpen(Get(b, n))
+        /\ Readable(Get(a, n)) = Readable(Get(b, n))
+TwinViol(st, e) ==
+  IF ~st.twin THEN {}
+  ELSE LET d == DenMerge(st.den, DenOf(e)) IN
+    (IF st.prevOk # st.twinOk
+     THEN {V("C13", "SerialisationChangesWhetherTheRunSucceeds", st.style, e)} ELSE {})
+    \cup (IF st.prevOk /\ st.twinOk /\ ~SemEq(st.eph, st.twinEnd, d)
+          THEN {V("C13", "SerialisationChangesTheResultingConfiguration", st.style, e)} ELSE {})
+
 ---------------------------------------------------------------------------
 Step(st, e) ==
   CASE e.ev = "reset" -> [S0 EXCEPT !.instance = e.instance]
     [] e.ev = "run_start" ->
          [st EXCEPT !.expect = e.expect, !.repeat = e.repeat,
-                    !.start = IF st.eph = <<>> THEN e.eph ELSE st.eph, !.staged = <<>>,
+                    !.twin = Has(e, "twin") /\ e.twin, !.style = IF Has(e, "style") THEN e.style ELSE "",
+                    !.twinOk = st.prevOk, !.twinEnd = st.prevEnd,
+                    !.start = IF Has(e, "twin") /\ e.twin THEN st.start ELSE IF st.eph = <<>> THEN e.eph ELSE st.eph, !.staged = <<>>,
                     !.den = DenMerge(@, DenOf(e)), !.irrmode = e.irr_mode,
                     !.opened = FALSE, !.openAcked = FALSE, !.failed = FALSE, !.loadsAcked = TRUE,
                     !.commitSeen = FALSE, !.commitAcked = FALSE, !.closeDbAcked = FALSE, !.closeSessAcked = FALSE,
                     !.faulted = FALSE, !.updated = {}, !.deleted = {}, !.nloads = 0, !.prevOk = FALSE,
-                    !.eph = IF st.eph = <<>> THEN e.eph ELSE st.eph]
+                    !.eph = IF Has(e, "twin") /\ e.twin THEN st.start ELSE IF st.eph = <<>> THEN e.eph ELSE st.eph]
     [] e.ev = "req" -> ReqStep(st, e)
     [] e.ev = "exit" -> [st EXCEPT !.prevOk = (e.code = 0)]
     [] e.ev = "run_end" -> [st EXCEPT !.prevEnd = st.eph]
@@ -194,7 +218,7 @@ Step(st, e) ==
 LineViol(st, st1, e) ==
   CASE e.ev = "req" -> ReqViol(st, e, st1.staged)
     [] e.ev = "exit" -> ExitViol(st, e)
-    [] e.ev = "run_end" -> EndViol(st, e)
+    [] e.ev = "run_end" -> EndViol(st, e) \cup TwinViol(st, e)
     [] OTHER -> {}
 
 TInit == l = 1 /\ viol = {} /\ s = S0 /\ stats = [lines |-> 0, runs |-> 0, loads |-> 0, commits |-> 0, okruns |-> 0]
